@@ -50,6 +50,9 @@ MCDocs == [
   Akb |-> D("A", {"kA", "kB"}, {"kA", "kB"}, <<>>, {}),                      \* B's key listed as a key of A
   Ad  |-> D("A", {}, {}, <<>>, {}),
   Ar  |-> D("A", {"kA"}, {"kA"}, <<>>, {S("s4", "r")}),                      \* attempt to revive
+  A3e |-> D("A", {"kA"}, {"kA"}, <<>>, {S("s5", "e")}),                      \* removes k2 (like A3)
+  A2p |-> D("A", {"kA", "k2"}, {"kA", "k2"}, <<>>, {S("s7", "q")}),             \* adds k2 (like A2; other bytes, so that the two versions do not share a hash)
+  A4p |-> D("A", {"kA"}, {"kA"}, <<>>, {S("s6", "p")}),
   B0  |-> D("B", {"kB"} \cup Listed, {"kB"}, <<>>, {}),                         \* the controller-to-be lists them, too
   B2  |-> D("B", {"kB", "k2"}, {"kB", "k2"}, <<>>, {}),
   B3  |-> D("B", {"kB"}, {"kB"}, <<>>, {S("s1", "z")}),
@@ -137,6 +140,15 @@ MCT == [
   uAbT4 |-> U("A", 2, 36, <<"uAb", "cB">>, "At4", "k4", "B", "k4"), uAbT5 |-> U("A", 2, 37, <<"uAb", "cB">>, "At5", "k5", "B", "k5"),
   uAbT6 |-> U("A", 2, 38, <<"uAb", "cB">>, "At6", "k6", "B", "k6"), uAbT7 |-> U("A", 2, 39, <<"uAb", "cB">>, "At7", "k7", "B", "k7"),
   uAbT8 |-> U("A", 2, 40, <<"uAb", "cB">>, "At8", "k8", "B", "k8"),
+  \* ---- kinds of HISTORY (HistTx). (1) a branch that is merged with a deactivation: updates that succeed the version the
+  \* deactivation succeeds, too, and are ordered AFTER it (dA: clock 2, time 24; dB: clock 1, time 17), and what is built on the merge
+  uA2p  |-> U("A", 2, 41, <<"uA1">>, "A2p", "kA", "A", "kA"),                    \* parallel to dA: authorised by the version it succeeds (uA1)
+  uA3p  |-> U("A", 3, 42, <<"uA2p">>, "A4p", "kA", "A", "kA"),                   \* own key of the deactivated DID on top of the merge
+  uAbBp |-> U("A", 2, 43, <<"uAb", "uB2">>, "Ab2", "kB", "B", "kB"),             \* key of the deactivated controller, referring to ITS merge (uB2 || dB)
+  \* (2) signing times that contradict the lamport clock (the signer writes the signing time; nothing compares it with the prevs)
+  uA3e  |-> U("A", 3, 0, <<"uA2">>, "A3e", "kA", "A", "kA"),                     \* removes k2, "signed" before the creation
+  uAk2e |-> U("A", 4, 44, <<"uA3e">>, "Ax", "k2", "A", "k2"),                    \* the removed key succeeds the removal
+  uA4e  |-> U("A", 4, 45, <<"uA3e">>, "A4p", "kA", "A", "kA"),                   \* the remaining key does
   \* ---- chain: D1 controlled by D2 controlled by ... D7
   h1 |-> Cr("D1", 1, "H1", "kD1"), h2 |-> Cr("D2", 2, "H2", "kD2"), h3 |-> Cr("D3", 3, "H3", "kD3"), h4 |-> Cr("D4", 4, "H4", "kD4"),
   h5 |-> Cr("D5", 5, "H5", "kD5"), h6 |-> Cr("D6", 6, "H6", "kD6"), h7 |-> Cr("D7", 7, "H7", "kD7"),
@@ -147,6 +159,12 @@ MCT == [
   g4  |-> U("D4", 1, 12, <<"h4", "h5">>, "H4x", "kD5", "D5", "kD5"),
   h7d |-> U("D7", 1, 13, <<"h7">>, "H7d", "kD7", "D7", "kD7")                    \* the far end is deactivated
 ]
+
+\* the universe for the kinds of history: deactivation on one branch and updates on another one, skewed signing times
+\* (H1: the DID itself; H2: its controller; H3: both together, thorough tier)
+HistOwnTx == {"cA", "uA1", "uA2", "dA", "uAr", "uA2p", "uA3p", "uA3e", "uAk2e", "uA4e"}
+HistCtrlTx == {"cA", "cB", "uAb", "dB", "uB2", "uAbBp", "uAbBd"}
+HistTx == HistOwnTx \cup HistCtrlTx
 
 Sc(ev, dup) == [ev |-> ev, dup |-> dup]
 MCScen == [
@@ -177,7 +195,11 @@ MCScen == [
   S25 |-> Sc({"c", "u2"}, 0),                            \* gap
   S26 |-> Sc({"c", "ue", "u1"}, 0),
   S27 |-> Sc({"c", "fb", "fk", "fn", "u1"}, 0),          \* 4-way fork
-  S28 |-> Sc({"c", "u1", "fb", "d2", "x3"}, 0)
+  S28 |-> Sc({"c", "u1", "fb", "d2", "x3"}, 0),
+  \* ---- ambassador mode: the sub-universes of the history kinds
+  H1  |-> Sc(HistOwnTx, 0),
+  H2  |-> Sc(HistCtrlTx, 0),
+  H3  |-> Sc(HistTx, 0)
 ]
 
 \* ---- defect classes of documents. Every class that concerns a verification method is crossed with the KIND of method
@@ -200,11 +222,13 @@ QuickTx == {"cA", "cB", "cAx", "cA2", "uA1", "uAx", "uAxB", "uAkB", "uAkid", "uA
 
 ChainTx == {"h1", "h2", "h3", "h4", "h5", "h6", "h7", "g1", "g1s", "g2", "g3", "g4", "h7d"}
 
-AllTx == MainTx \cup QuickTx \cup ChainTx
+AllTx == MainTx \cup QuickTx \cup ChainTx \cup HistTx
 
 \* clocks respect the prevs relation (premise of ConflictResolvedByJoin), prevs name known transactions
 ASSUME \A e \in DOMAIN MCT : \A p \in Range(MCT[e].prevs) : p \in DOMAIN MCT /\ MCT[p].lc < MCT[e].lc
 ASSUME \A e \in DOMAIN MCT : (MCT[e].doc \in DOMAIN MCDocs /\ MCDocs[MCT[e].doc].id = MCT[e].did) \/ Print(<<"bad tx", e>>, FALSE)
+\* the reference order (clock, signing time, ref) is total on the really signed transactions of a DID (their refs are not predictable)
+ASSUME \A e, f \in AllTx : (e # f /\ MCT[e].did = MCT[f].did) => (MCT[e].lc # MCT[f].lc \/ MCT[e].sig # MCT[f].sig)
 ASSUME VMDefects \subseteq BaseDefects
 ASSUME PrintT(ToJson([tables |-> [T |-> MCT, Docs |-> MCDocs, Scen |-> MCScen, Thumb |-> MCThumb, Rank |-> MCRank, KeyUse |-> MCKeyUse,
                                  Defects |-> MCDefects, VMKinds |-> VMKinds]]))
@@ -217,8 +241,8 @@ EmitOrder == (Hist /\ StoreDone) => PrintT(ToJson([sc |-> sc, steps |-> hist,
 \* one witness path per distinct store state, together with the verdict of every transaction in that state
 EmitState == (Hist /\ Mode = "ambassador") =>
                 PrintT(ToJson([path |-> hist,
-                               verdicts |-> [t \in TxU |-> Verdict(t, "none")],
-                               sigok |-> [t \in TxU |-> SignatureOK(t)],
-                               authorised |-> [t \in TxU |-> RefAuthorised(t)]]))
+                               verdicts |-> [t \in {u \in TxU : InPlay(u)} |-> Verdict(t, "none")],
+                               sigok |-> [t \in {u \in TxU : InPlay(u)} |-> SignatureOK(t)],
+                               authorised |-> [t \in {u \in TxU : InPlay(u)} |-> RefAuthorised(t)]]))
 PathBound == Len(hist) <= 12
 =============================================================================
